@@ -1,5 +1,6 @@
 //! mvh — conformance harness binding the TLA+ specification in /verif/spec to cf/miden-vm.
 mod exec;
+mod hints;
 mod span;
 mod trace;
 mod util;
@@ -12,6 +13,7 @@ fn main() {
         "replay-span" => span::replay_span(a(2), a(3)),
         "opcodes" => span::opcodes(a(2)),
         "replay-masm" => exec::replay_masm(a(2), a(3)),
+        "hints" => hints::run_hints(a(2), a(3)),
         "determinism" => trace::determinism(a(2), a(3)),
         "iter-walk" => trace::iter_walk(a(2), a(3)),
         other => {
